@@ -54,7 +54,8 @@ RULE = ('cases = (model names, row order of the convolved files, row order and b
         'non-trivial = at least 2 models and at least 1 selected fit whose table row is not at the same position '
         'as its rank; distinct = distinct canonical hash of the generated inputs')
 REQUIRED_BRANCHES = ['write_parameters', 'write_parameter_ranges', 'extract_parameters', 'filter_table',
-                     'plot_params_1d', 'plot_params_2d', 'plot_1d_log_x', 'plot_1d_additional',
+                     'plot_params_1d', 'plot_params_2d', 'plot_1d_log_x', 'plot_1d_additional', 'plot_1d_log_x_nonpositive_selected',
+                     'plot_2d_log_x', 'plot_2d_log_y', 'plot_2d_log_nonpositive_selected',
                      'plots_input_file', 'plots_input_single', 'plots_input_list', 'plots_selected_0',
                      'plots_selected_some', 'plots_padded_unsorted_table',
                      'input_file', 'input_single', 'input_list',
@@ -66,7 +67,8 @@ REQUIRED_BRANCHES = ['write_parameters', 'write_parameter_ranges', 'extract_para
                      'history_1', 'history_2', 'history_3', 'narrow_then_wide_single', 'narrow_then_wide_list',
                      'narrow_then_wide_file', 'wide_then_narrow', 'repeated_selector',
                      'extra_table_rows', 'param_nan', 'param_inf', 'fit_nan', 'fit_inf', 'range_all_nan',
-                     'parameters_rewritten', 'rewrite_added_column',
+                     'parameters_rewritten', 'rewrite_added_column', 'flag_edited_in_place', 'flag_edited_in_place_single',
+                     'flag_edited_in_place_list', 'flag_edited_in_place_file',
                      'table_names_S', 'table_names_U', 'model_name_column_first', 'model_name_column_middle', 'model_name_column_last',
                      'column_dtype_f8', 'column_dtype_f4', 'column_dtype_f8_bigendian', 'column_dtype_i4', 'column_dtype_i8',
                      'additional_typed_float', 'additional_typed_int_first', 'additional_typed_np_int', 'additional_typed_float32',
@@ -213,6 +215,15 @@ def gen_case(rng, directed=None, table_perm=None, n=None):
             s['chi2'] = [rng.choice(['nan', 'inf']) if rng.random() < 0.3 else v for v in s['chi2']]
             s['av'] = sprinkle(rng, s['av'], 0.25)
             s['sc'] = sprinkle(rng, s['sc'], 0.25)
+        # the same Source object used again after one band's flag has been edited IN PLACE (s.valid[j] = ...)
+        s['flag_edit'] = None
+        if directed.get('flag_edit', rng.random() < 0.35):
+            fitted = [j for j, f in enumerate(s['flags']) if f in (1, 4)]
+            idle = [j for j, f in enumerate(s['flags']) if f in (0, 9)]
+            if len(fitted) >= 3 and (not idle or rng.random() < 0.6):
+                s['flag_edit'] = [rng.choice(fitted), 0]
+            elif idle:
+                s['flag_edit'] = [rng.choice(idle), 1]
         sources.append(s)
     wavs = sorted({nice(rng, 0.4, 200., 3) for _ in range(nb)})
     while len(wavs) < nb:
@@ -259,10 +270,15 @@ def gen_case(rng, directed=None, table_perm=None, n=None):
         finite_cols = []          # the plots histogram the column in its own dtype: only float64 columns are plotted
     plots = None
     if finite_cols and directed.get('plots', rng.random() < 0.25):
+        def npos(c_):
+            return len({v for v in [cols[c_][i] for i in range(n)] + [e[1][c_] for e in extra] if v > 0})
         p1 = rng.choice(finite_cols)
         allv = [cols[p1][i] for i in range(n)] + [e[1][p1] for e in extra]
-        plots = dict(p1=p1, bins=rng.choice([4, 10, 30]), log_x=bool(min(allv) > 0 and rng.random() < 0.5),
-                     px=rng.choice(finite_cols), py=rng.choice(finite_cols),
+        px, py = rng.choice(finite_cols), rng.choice(finite_cols)
+        # logarithmic axes are asked for whether or not every value is positive (at least two positive ones, so that
+        # the axis has a range); non-positive values of selected fits then simply cannot be shown
+        plots = dict(p1=p1, bins=rng.choice([4, 10, 30]), log_x=bool(npos(p1) >= 2 and rng.random() < 0.5),
+                     px=px, py=py, log2x=bool(npos(px) >= 2 and rng.random() < 0.4), log2y=bool(npos(py) >= 2 and rng.random() < 0.4),
                      explicit=bool(rng.random() < 0.3 or len(allv) < 2))
     # compared refusals: one round, no plots
     defect = directed.get('defect')
@@ -288,7 +304,11 @@ def gen_case(rng, directed=None, table_perm=None, n=None):
         for ri in range(1, len(more) + 1):
             if ri > 1 and rng.random() < 0.5:
                 continue
-            ncols_ = {c: colvals(rng, n, signed=not (plots and plots['log_x'] and c == plots['p1'])) for c in cur_cols}
+            ncols_ = {c: colvals(rng, n) for c in cur_cols}
+            if plots:
+                for c_, flag in ((plots['p1'], plots['log_x']), (plots['px'], plots['log2x']), (plots['py'], plots['log2y'])):
+                    if flag:
+                        ncols_[c_] = [abs(v) if i < 2 else v for i, v in enumerate(ncols_[c_])]
             nextra_ = [[e[0], {c: (float(rng.randint(100000, 200000)) if intcols else nice(rng, 1e-3, 1e5, 3)) for c in cur_cols}] for e in cur_extra]
             spare = [c for c in COLNAMES if c not in ncols_]
             if spare and rng.random() < 0.35:
@@ -327,6 +347,9 @@ for _pos in ('first', 'middle', 'last'):
 for _t in ('int_first', 'np_int', 'float32', 'bool', 'mixed'):
     DIRECTED.append(dict(n=6, ncols=2, nadd=2, mode='direct', form='single', sel='A', target=6, special=False, add_type=_t,
                          col_dtype=('i4' if _t == 'bool' else 'i8' if _t == 'mixed' else 'f8')))
+for _form in ('single', 'list', 'file'):
+    DIRECTED += [dict(n=5, form=_form, mode='fitter', sel='E', target=3, flag_edit=True, special=False),
+                 dict(n=4, form=_form, mode='direct', sel='A', target=4, flag_edit=True, special=False)]
 # call histories on the same input: narrow -> wide, wide -> narrow, repeated, three rounds; every input form
 for _form in ('single', 'list', 'file'):
     DIRECTED += [
@@ -427,7 +450,14 @@ def build(case, d):
         for s in case['sources']:
             src = pk.make_source(s['name'], s['flags'], s['flux'], s['err'])
             with common.quiet():
-                infos.append(fitter.fit(src))
+                info = fitter.fit(src)
+                if s.get('flag_edit'):
+                    # life-cycle: the source has been fitted (and its n_data looked at); the user masks / unmasks one
+                    # band in place and fits the SAME object again; the new result is what gets listed
+                    src.n_data
+                    src.valid[s['flag_edit'][0]] = s['flag_edit'][1]
+                    info = fitter.fit(src)
+                infos.append(info)
     else:
         filters = [dict(aperture_arcsec=1., name=fn, wav=w) for fn, w in zip(fnames, case['wavs'])]
         meta = (md, filters, ext)
@@ -436,6 +466,9 @@ def build(case, d):
                 info = pk.make_fitinfo(case['conv'], [fv(s['chi2'][i]) for i in idx], av=[fv(s['av'][i]) for i in idx],
                                        sc=[fv(s['sc'][i]) for i in idx], flags=s['flags'], source_name=s['name'],
                                        meta=meta)
+            if s.get('flag_edit'):
+                info.source.n_data
+                info.source.valid[s['flag_edit'][0]] = s['flag_edit'][1]
             infos.append(info)
     return md, infos
 
@@ -591,7 +624,7 @@ def typed(v, kind, i):
     if kind == 'int_first':
         return int(v) if i == 0 else v
     if kind == 'np_int':
-        return [np.int64, np.int32, np.int16][i % 3](v)
+        return [np.int64, np.int32, np.uint32 if v >= 0 else np.int64][i % 3](v)
     if kind == 'float32':
         return np.float32(v)
     if kind == 'bool':
@@ -662,20 +695,28 @@ def call_plots(case, d, src, sel):
     allv = [v[j] for v in tv.values()]
     if pl['explicit']:
         lo, hi = min(allv), max(allv)
-        kw['hist_range'] = (lo - 0.5 * abs(lo) - 0.25, hi + 0.5 * abs(hi) + 0.25) if not pl['log_x'] else (lo * 0.5, hi * 2.)
+        pos = [v for v in allv if v > 0]
+        kw['hist_range'] = (lo - 0.5 * abs(lo) - 0.25, hi + 0.5 * abs(hi) + 0.25) if not pl['log_x'] else (min(pos) * 0.5, max(pos) * 2.)
     if add:
         kw['additional'] = add
     out['kw1'] = dict(bins=pl['bins'], log_x=pl['log_x'], hist_range=kw.get('hist_range'))
     with common.quiet():
-        out['p1'] = capture_plots(lambda: plot_params_1d(src, pl['p1'], output_dir=os.path.join(d, 'plots1d'), **kw))
-    kw2 = dict(select_format=sel, log_x=False, log_y=False, format='png')
+        with np.errstate(all='ignore'):
+            out['p1'] = capture_plots(lambda: plot_params_1d(src, pl['p1'], output_dir=os.path.join(d, 'plots1d'), **kw))
+    lx, ly = bool(pl.get('log2x')), bool(pl.get('log2y'))
+    kw2 = dict(select_format=sel, log_x=lx, log_y=ly, format='png')
     jx, jy = cols.index(pl['px']), cols.index(pl['py'])
     xs, ys = [v[jx] for v in tv.values()], [v[jy] for v in tv.values()]
-    if pl['explicit'] or min(xs) == max(xs) or min(ys) == max(ys):
-        kw2['bounds'] = (min(xs) - abs(min(xs)) - 1., max(xs) + abs(max(xs)) + 1., min(ys) - abs(min(ys)) - 1.,
-                         max(ys) + abs(max(ys)) + 1.)
+    if pl['explicit'] or lx or ly or min(xs) == max(xs) or min(ys) == max(ys):
+        def rng_(vs, lg):
+            if lg:
+                pos = [v for v in vs if v > 0]
+                return min(pos) * 0.5, max(pos) * 2.
+            return min(vs) - abs(min(vs)) - 1., max(vs) + abs(max(vs)) + 1.
+        kw2['bounds'] = rng_(xs, lx) + rng_(ys, ly)
     with common.quiet():
-        out['p2'] = capture_plots(lambda: plot_params_2d(src, pl['px'], pl['py'], output_dir=os.path.join(d, 'plots2d'), **kw2))
+        with np.errstate(all='ignore'):
+            out['p2'] = capture_plots(lambda: plot_params_2d(src, pl['px'], pl['py'], output_dir=os.path.join(d, 'plots2d'), **kw2))
     return out
 
 
@@ -741,6 +782,8 @@ def static_branches(case):
         br.add('table_not_sorted')
     if case.get('extra'):
         br.add('extra_table_rows')
+    if any(s_.get('flag_edit') for s_ in case['sources']):
+        br |= {'flag_edited_in_place', 'flag_edited_in_place_' + case['form']}
     br |= {'table_names_' + tr_['name_dtype'], 'model_name_column_' + tr_['name_pos'], 'column_dtype_' + tr_['col_dtype'].strip('>') + ('_bigendian' if tr_['col_dtype'].startswith('>') else '')}
     br |= {'additional_typed_' + v for v in case.get('add_types', {}).values()}
     flat = [v for c in cols for v in case['cols'][c]]
@@ -970,10 +1013,14 @@ def check_plots(case, r, k, sel_names, table, pl_out, br):
         xy = recs[0]['hatched'][0]
         bins = pl['bins']
         allv = np.array([v[j] for v in table.values()], dtype=float)
-        lo, hi = pl_out['kw1']['hist_range'] or (allv.min(), allv.max())
+        rng0 = allv[allv > 0] if pl['log_x'] else allv        # a logarithmic axis spans the positive values of the column
+        lo, hi = pl_out['kw1']['hist_range'] or (rng0.min(), rng0.max())
         vals = np.array([table[nme][j] for nme in sel_names], dtype=float)
         if pl['log_x']:
-            hist, edges = np.histogram(np.log10(vals), bins=bins, range=[np.log10(lo), np.log10(hi)])
+            if np.any(vals <= 0):
+                br.add('plot_1d_log_x_nonpositive_selected')
+            with np.errstate(all='ignore'):           # log10 of a non-positive value is NaN / -inf: not in any bin
+                hist, edges = np.histogram(np.log10(vals), bins=bins, range=[np.log10(lo), np.log10(hi)])
             edges = 10. ** edges
         else:
             hist, edges = np.histogram(vals, bins=bins, range=[lo, hi])
@@ -998,6 +1045,12 @@ def check_plots(case, r, k, sel_names, table, pl_out, br):
     else:
         pts = [tuple(float(v) for v in p) for p in recs[0]['scatter'][0]]
         want = [(table[nme][jx], table[nme][jy]) for nme in sel_names]
+        if pl.get('log2x'):
+            br.add('plot_2d_log_x')
+        if pl.get('log2y'):
+            br.add('plot_2d_log_y')
+        if (pl.get('log2x') and any(w[0] <= 0 for w in want)) or (pl.get('log2y') and any(w[1] <= 0 for w in want)):
+            br.add('plot_2d_log_nonpositive_selected')
         if pts != want:
             fails.append('plot_params_2d source %r (%s, %s): plotted points %r; parameters of the %d selected fits looked '
                          'up by model name: %r' % (r['name'], pl['px'], pl['py'], pts, k, want))
